@@ -28,6 +28,8 @@ type C18Case struct {
 	// fresh: the program under test has pinned Go's global math/rand source (rand.Seed(constant) in a TestMain or
 	// a test, GODEBUG=randautoseed=0 in the child processes): the library's choice of seeds must not depend on it
 	Pinned bool `json:"pinned,omitempty"`
+	// fresh: a fail file of the test that has become useless (now passing / now invalid) lies in its directory
+	Stale string `json:"stale,omitempty"`
 }
 
 type c18 struct{}
@@ -586,11 +588,31 @@ func freshProg() *Prog {
 	return &Prog{Body: []*Stmt{{Op: "draw", Label: "w", Gen: &GenSpec{K: "slice", Min: 16, Max: 16, Sub: []*GenSpec{{K: "int", IK: "Int64"}}}}}}
 }
 
-func firstCases(n int) []string {
+func firstCases(n int) []string { return firstCasesOpt(n, "") }
+
+// firstCasesOpt: stale != "" plants one fail file for the test first that is of no use any more ("passing": enough
+// zero words, the property never fails; "invalid": too few words). Its replay is the first invocation and is left out.
+func firstCasesOpt(n int, stale string) []string {
+	drop := 0
+	if stale != "" {
+		if base, version, ok := subjectFailFile("TestFresh"); ok {
+			words := make([]uint64, 120)
+			if stale == "invalid" {
+				words = words[:3]
+			}
+			writeFailFile(strings.TrimSuffix(base, ".fail")+"-old.fail", version, 5, words, "left over from a bug that has been fixed")
+			drop = 1
+		}
+	}
 	r := runProg(CheckCfg{Name: "TestFresh", Seed: 0, Checks: n, ShrinkNS: 0, NoFailFile: true}, freshProg())
 	var out []string
-	for _, inv := range r.X.Log {
-		out = append(out, inv.DrawCanon())
+	for i, inv := range r.X.Log {
+		if i >= drop {
+			out = append(out, inv.DrawCanon())
+		}
+	}
+	for _, f := range FailFiles() {
+		_ = removeFile(f)
 	}
 	return out
 }
@@ -603,9 +625,12 @@ func (p c18) fresh(c *Ctx, cs *C18Case) Outcome {
 		}
 	}
 	pin()
-	a := firstCases(cs.N)
+	a := firstCasesOpt(cs.N, cs.Stale)
 	pin()
-	b := firstCases(cs.N)
+	b := firstCasesOpt(cs.N, cs.Stale)
+	if cs.Stale != "" {
+		out.Classes = append(out.Classes, "fresh-with-a-useless-fail-file-present")
+	}
 	if cs.Pinned {
 		out.Classes = append(out.Classes, "fresh-with-pinned-global-math/rand")
 	}
@@ -632,6 +657,9 @@ func (p c18) fresh(c *Ctx, cs *C18Case) Outcome {
 		cmd.Env = append(os.Environ(), "VERIF_CHILD=fresh")
 		if cs.Pinned {
 			cmd.Env = append(cmd.Env, "GODEBUG=randautoseed=0")
+		}
+		if cs.Stale != "" {
+			cmd.Env = append(cmd.Env, "VERIF_FRESH_STALE="+cs.Stale)
 		}
 		b, err := cmd.Output()
 		if err != nil {
@@ -692,9 +720,9 @@ func (p c18) Loop(c *Ctx) {
 		}
 	}
 	// 4. freshness
-	for i := 0; i < c.Pick(2, 4); i++ {
+	for i := 0; i < c.Pick(4, 8); i++ {
 		if mine() {
-			run(&C18Case{What: "fresh", N: 60, Pinned: i%2 == 1})
+			run(&C18Case{What: "fresh", N: 60, Pinned: i%2 == 1, Stale: []string{"", "passing", "", "invalid"}[i%4]})
 		}
 	}
 	// 4. sampled ranges of every kind, generated (and shrunk) by the driver
